@@ -93,7 +93,7 @@ Section Seq.
   | PLiftSub (order : list gref)
   | PAddInit
   | PRmInit
-  | PDefAttr.
+  | PDefAttr (fuel : nat).
 
   Definition apply_pass (m : model) (p : pass) : model :=
     match p with
@@ -107,7 +107,7 @@ Section Seq.
     | PLiftSub order => lift_subgraph_inits order m
     | PAddInit => add_inits_to_inputs [GMain] m
     | PRmInit => remove_inits_from_inputs [GMain] m
-    | PDefAttr => add_default_attrs tbl m
+    | PDefAttr fuel => add_default_attrs tbl fuel m
     end.
 
   (* what a pass needs beyond WF / NoOpFunc, at the point where it runs *)
@@ -120,7 +120,7 @@ Section Seq.
     | POutFix _ fresh => FreshAll m fresh
     | PReorder m' => reorder_modelb m m' = true
     | PLiftSub _ => NoDup (map fst (m_subs m))
-    | PDefAttr => TblOK tbl m
+    | PDefAttr _ => TblOK tbl m
     end.
 
   Definition Inv (m : model) : Prop := WF m /\ NoOpFunc m.
@@ -163,7 +163,7 @@ Section Seq.
     - split; [split; [apply remove_inits_main_WF | apply remove_inits_main_NoOpFunc]; assumption|].
       constructor; [|apply remove_inits_main_noninit | f_equal; apply remove_inits_main_outs].
       intros env r _ Hc. apply remove_inits_main_computes_iff. exact Hc.
-    - pose proof (add_default_attrs_pres T absent tensor_val interp interp_mono interp_identity interp_trailing_absent tbl interp_defaults m HW HN Hx) as P.
+    - pose proof (add_default_attrs_pres T absent tensor_val interp interp_mono interp_identity interp_trailing_absent tbl interp_defaults fuel m HW HN Hx) as P.
       split; [destruct P; split; assumption | apply Pres_Refines; [exact P | reflexivity]].
   Qed.
 
